@@ -236,8 +236,9 @@ Tick(op) ==
 (* first; in the step phase the derivers run, then the first flow layer (all  *)
 (* s1 of the compartments present when the phase began, then the director's   *)
 (* structural update), then the second layer: the s2 that were there when the *)
-(* phase began and still are at their place.  Steps created or moved during   *)
-(* the phase first run in the next one.                                       *)
+(* phase began and still exist, each where it is now (a step that the         *)
+(* director has moved runs at its new place).  Steps created during the phase *)
+(* first run in the next one.                                                 *)
 Bump(T, R) ==   \* +1 to the counter of every step path in R
   [b \in Branches |->
      [k \in DOMAIN T[b] |->
@@ -260,7 +261,13 @@ TickS(op) ==
          Tg == Bump(Td, G0)
          S0 == [tree |-> Tg, eseq |-> eseq, origin |-> [l \in Locs(Tg) |-> l]]
          S1 == Struct(S0, op)
-         G1 == {p \in StepPaths(T1) \ D : p[3] = "s2" /\ SamePlace(S1, <<p[1], p[2]>>)}
+         \* the s2 that were there when the phase began run where they are now (a
+         \* step that an earlier step of the phase has moved still exists: it runs
+         \* at its new place; the s2 of a compartment that is new does not)
+         G1 == {<<l[1], l[2], "s2">> : l \in
+                  {m \in DOMAIN S1.origin :
+                     /\ S1.origin[m] # New
+                     /\ <<S1.origin[m][1], S1.origin[m][2], "s2">> \in StepPaths(T1) \ D}}
          T3 == Bump(S1.tree, G1)
          R  == {p \in D \cup G0 : TRUE} \cup G1
      IN /\ NComps(S1.tree) <= MaxComps
@@ -269,11 +276,13 @@ TickS(op) ==
         /\ origin' = S1.origin
         /\ invoked' = [p \in P \cup R |-> IF p \in D THEN Occurs(eseq, p) ELSE 1]
         \* a step that ran saw its upstream counter as it was when it ran
-        /\ seen' = [p \in {r \in D \cup G0 \cup G1 :
-                              Upstream(CompAt(T1, <<r[1], r[2]>>).tpl, r[3]) # "-"} |->
-                      LET up == Upstream(CompAt(T1, <<p[1], p[2]>>).tpl, p[3])
-                      IN IF p \in G1 THEN CompAt(S1.tree, <<p[1], p[2]>>).cnt[up]
-                                     ELSE CompAt(Tg, <<p[1], p[2]>>).cnt[up]]
+        /\ seen' = [p \in {r \in D \cup G0 : Upstream(CompAt(T1, <<r[1], r[2]>>).tpl, r[3]) # "-"}
+                       \cup {r \in G1 : Upstream(CompAt(S1.tree, <<r[1], r[2]>>).tpl, r[3]) # "-"} |->
+                      IF p \in G1
+                        THEN CompAt(S1.tree, <<p[1], p[2]>>).cnt[
+                               Upstream(CompAt(S1.tree, <<p[1], p[2]>>).tpl, p[3])]
+                        ELSE CompAt(Tg, <<p[1], p[2]>>).cnt[
+                               Upstream(CompAt(T1, <<p[1], p[2]>>).tpl, p[3])]]
         /\ leaves' = LeavesAfter(leaves, op)
         /\ err' = FALSE
 
